@@ -30,6 +30,7 @@ const (
 
 type context struct {
 	ip       int                           // instruction pointer
+	tmp      value.Type                    // temp register at the point the context yielded
 	m        *memory.Type                  // variables
 	parent   *context                      // parent context
 	children *intmap.Map[uint64, *context] // child contexts
@@ -469,6 +470,7 @@ func (vm *Type) Run(retResult bool) (value.Type, error) {
 
 			m = ctxp.m
 			ip = ctxp.ip
+			tmp = ctxp.tmp
 
 		case bytecode.YIELD:
 			tmp = vm.fetch(instr.Src0(), instr.Src0Addr(), m, ds)
@@ -477,6 +479,7 @@ func (vm *Type) Run(retResult bool) (value.Type, error) {
 			if ctxp.parent != nil {
 				ctxp.m = m
 				ctxp.ip = ip
+				ctxp.tmp = tmp
 
 				ctxp = ctxp.parent
 
